@@ -20,6 +20,14 @@ ops:
   evict            (hook `verif_evict_now`)
   evictasync       (trigger_eviction_if_needed, wait, finish())
   mkfile <path> | mkdir <path> | symlink <path> <target> | rm <path>      external file-system activity
+  bulk <dir> <count> <size> <time0> <step> <mult> <mk>
+                   a macro for `count` notifications with ONE observation at the end (large tables): for
+                   i < count the file `<dir>/k<i>` is reported `created` with `size` at the time
+                   `time0 - ((i·mult) mod count)·step`; before that it is really written (`mkfile`) when
+                   `mk ≠ 0` and `mk ∣ i`. Stops at the first notification that does not return normally.
+  evictrace        `trigger_eviction_if_needed` immediately followed by `finish()` (no waiting): tokio's
+                   `select!` runs the pass or not; the harness repeats the case until the pass ran, so the
+                   expected observation is that of `evictasync` — a pass cut short by `finish()` is not.
 
 out: one line per op: `<ok|panic|nomgr|bad> | <inventory> | <fs>`
   inventory = `nodb` | `-` | rows `rel:size:ctime:atime` in `ORDER BY LastAccessTime, rowid` order
@@ -83,11 +91,51 @@ def parseOp (l : String) : Option Op :=
   | ["maxage", v] => (parseMaxAge v).map .setMaxAge
   | ["evict"] => some .evict
   | ["evictasync"] => some .evictAsync
+  | ["evictrace"] => some .evictAsync
   | ["mkfile", p] => some (.mkfile (parsePath p))
   | ["mkdir", p] => some (.mkdir (parsePath p))
   | ["symlink", p, t] => some (.symlink (parsePath p) (parsePath t))
   | ["rm", p] => some (.rm (parsePath p))
   | _ => none
+
+/-- `bulk` line: a macro for many `mkfile` / `created` ops observed once -/
+structure BulkSpec where
+  dir : Path
+  count : Nat
+  size : Nat
+  t0 : Int
+  stepT : Nat
+  mult : Nat
+  every : Nat
+
+def BulkSpec.path (b : BulkSpec) (i : Nat) : Path := b.dir ++ [s!"k{i}"]
+
+def BulkSpec.time (b : BulkSpec) (i : Nat) : Int := b.t0 - ((((i * b.mult) % b.count) * b.stepT : Nat) : Int)
+
+def BulkSpec.real (b : BulkSpec) (i : Nat) : Bool := b.every != 0 && i % b.every == 0
+
+def BulkSpec.ops (b : BulkSpec) : List Op :=
+  (List.range b.count).flatMap fun i =>
+    (if b.real i then [Op.mkfile (b.path i)] else []) ++ [Op.created (b.path i) b.size (b.time i)]
+
+def parseBulk (l : String) : Option BulkSpec :=
+  match words l with
+  | ["bulk", dir, count, size, t0, stepT, mult, mk] => do
+    let count ← count.toNat?
+    let size ← size.toNat?
+    let t0 ← parseTime t0
+    let stepT ← stepT.toNat?
+    let mult ← mult.toNat?
+    let mk ← mk.toNat?
+    pure ⟨parsePath dir, count, size, t0, stepT, mult, mk⟩
+  | _ => none
+
+/-- run ops until one does not return `ok` -/
+def runOps (w : World) : List Op → World × Status
+  | [] => (w, .ok)
+  | o :: os =>
+    let r := step vnow w o
+    if r.2 = .ok then runOps r.1 os else r
 
 def showRow (r : Row) : String :=
   s!"{showRel r.rel}:{r.size}:{showTime r.ctime}:{showTime r.atime}"
@@ -118,6 +166,11 @@ def model (ls : List String) : List String :=
     match ls with
     | [] => acc.reverse
     | l :: rest =>
+      match parseBulk l with
+      | some b =>
+        let r := runOps w b.ops
+        go r.1 rest (showLine r.2 r.1 :: acc)
+      | none =>
       match parseOp l with
       | none => go w rest ("bad-op" :: acc)
       | some op =>
@@ -168,6 +221,8 @@ structure JSt where
   inv : Option (List Row) := none
   fs : FS := []
   root : Option Path := none
+  /-- the root as it was spelled in `open` (a restart resolves it again) -/
+  rootSpelling : Path := []
   maxSize : Option Nat := none
   maxAge : Option Nat := none
   poisonOk : Bool := false
@@ -195,6 +250,15 @@ def rowEscapes (fs : FS) (root : Path) (r : Row) : Bool := !isPrefix root (rowPa
 
 /-- can the row's file be unlinked (or is it already absent)? `err` = directory, ENOTDIR, … -/
 def rowUnlink (fs : FS) (root : Path) (r : Row) : DelRes × FS := unlink fs (rowPath fs root r)
+
+/-- the node `unlink(2)` of `p` removes when it succeeds: the resolved directory plus the last name -/
+def unlinkTarget (fs : FS) (p : Path) : Option Path :=
+  match p.getLast? with
+  | none => none
+  | some last =>
+    match canonicalize fs p.dropLast with
+    | .ok par => some (par ++ [last])
+    | .error _ => none
 
 def rowStuck (fs : FS) (root : Path) (r : Row) : Bool :=
   rowEscapes fs root r || (rowUnlink fs root r).1 == .err
@@ -247,8 +311,7 @@ def judgeEvict (st : JSt) (root : Path) (I I' : List Row) (F F' : FS) : Except S
   | some r => throw s!"[kept-row-file-deleted] the file of row {showRel r.rel} was deleted by the pass but the row was kept"
   | none => pure ()
   -- bookkeeping: exactly the files of the forgotten rows are gone, and they are gone
-  let expectD := R.filterMap (fun r => let u := rowUnlink F root r
-                                         if u.1 == .ok then (fsKeys F).find? (fun k => (u.2.lookup k).isNone) else none)
+  let expectD := R.filterMap (fun r => if (rowUnlink F root r).1 == .ok then unlinkTarget F (rowPath F root r) else none)
   if !sameSet D expectD then
     throw s!"[disk-inventory-mismatch] deleted files {D.map showPath} ≠ files of the forgotten rows {expectD.map showPath}"
   match R.find? (fun r => rowPresent F' root r) with
@@ -332,12 +395,14 @@ def judgeStep (st : JSt) (op : Op) (o : Obs) : Except String JSt := do
   | .open_ root _ =>
     if fsKeys o.fs != fsKeys st.fs then throw "[open-changed-disk]"
     if st.inv.isSome ∧ o.inv != st.inv then throw "[restart-changed-inventory] re-opening the database changed the inventory"
-    return { st' with root := some (canonOrKeep o.fs root), maxSize := none, maxAge := none, poisonOk := false }
+    return { st' with root := some (canonOrKeep o.fs root), rootSpelling := root, maxSize := none, maxAge := none,
+                      poisonOk := false }
   | .restart =>
     if o.status = "panic" then throw "[panic] finish() panicked"
     if fsKeys o.fs != fsKeys st.fs then throw "[restart-changed-disk]"
     if o.inv != st.inv then throw "[restart-changed-inventory] restart changed the inventory"
-    return { st' with maxSize := none, maxAge := none, poisonOk := false }
+    return { st' with root := some (canonOrKeep o.fs st.rootSpelling), maxSize := none, maxAge := none,
+                      poisonOk := false }
   | .created p _ t | .accessed p t =>
     if fsKeys o.fs != fsKeys st.fs then throw "[notification-touched-disk]"
     if o.status = "panic" then
@@ -411,11 +476,56 @@ def judgeStep (st : JSt) (op : Op) (o : Obs) : Except String JSt := do
         | .ok _ => return { stN with lastEvictOk := !closed }
     | _, _, _ => throw "[harness] eviction without manager or database"
 
+/-- a `bulk` line (many `created` notifications, one observation): old nodes are untouched, new nodes
+lie below the bulk directory, every other row is unchanged, and every reported file whose name is a
+physical path under the root has exactly the reported row -/
+def judgeBulk (st : JSt) (b : BulkSpec) (o : Obs) : Except String JSt := do
+  if o.status ∉ ["ok", "panic", "nomgr"] then throw s!"[harness] status {o.status}"
+  let st' : JSt := { st with inv := o.inv, fs := o.fs, lastEvictOk := false }
+  if !(fsKeys st.fs).all (fun k => st.fs.lookup k == o.fs.lookup k) then
+    throw "[bulk] an existing node changed"
+  if !(fsKeys o.fs).all (fun k => (st.fs.lookup k).isSome || isPrefix b.dir k || isPrefix k b.dir) then
+    throw "[bulk] a node appeared outside the bulk directory"
+  if o.status = "nomgr" then
+    if o.inv != st.inv then throw "[harness] rejected op changed the state"
+    return st'
+  if o.status = "panic" then
+    if st.poisonOk then return st'
+    if (List.range b.count).any (fun i => decide (b.time i < 0)) then return { st' with poisonOk := true }
+    throw "[panic] a notification with valid arguments panicked"
+  match st.root, st.inv, o.inv with
+  | some root, some I, some I' =>
+    let expected : List Row := (List.range b.count).filterMap fun i =>
+      let p := b.path i
+      if physPath o.fs p == p && isPrefix root p && !p.contains ".." then
+        some ⟨p.drop root.length, toI64 b.size, (b.time i).toNat, (b.time i).toNat⟩
+      else none
+    let rels := expected.map (·.rel)
+    if b.count != 0 && physPath o.fs b.dir == b.dir && isPrefix root b.dir && expected.length != b.count then
+      throw "[harness] bulk: expected rows were not computed"
+    match expected.find? (fun r => !I'.contains r) with
+    | some r => throw s!"[record] bulk: {showRow r} was reported but is not recorded like that"
+    | none => pure ()
+    if !sameRows (I.filter (fun r => !rels.contains r.rel)) (I'.filter (fun r => !rels.contains r.rel)) then
+      -- names that are not physical paths (symlinked directories) may be recorded under another key
+      if expected.length == b.count then throw "[record] bulk: other rows changed"
+    return st'
+  | _, _, _ => return st'
+
 def judge (ops impl : List String) : Bool × String :=
   if impl.length ≠ ops.length then (false, "[harness] wrong number of output lines") else
   let rec go (st : JSt) (ops impl : List String) (k : Nat) : Bool × String :=
     match ops, impl with
     | l :: ls, o :: os =>
+      match parseBulk l with
+      | some b =>
+        match parseObs st.links o with
+        | none => (false, s!"[harness] unparsable output line {k}: {o}")
+        | some obs =>
+          match judgeBulk st b obs with
+          | .error e => (false, s!"{e} (op {k}: {l})")
+          | .ok st' => go st' ls os (k + 1)
+      | none =>
       match parseOp l with
       | none => if o = "bad-op" then go st ls os (k + 1) else (false, "[harness] bad-op mismatch")
       | some op =>
